@@ -1888,6 +1888,12 @@ class ContractionTree:
                 i = -1
             rng = None
 
+        if subtree_search == "random":
+            # random subtree building needs to be seeded as well
+            subtree_rng = get_rng(seed) if rng is None else rng
+        else:
+            subtree_rng = None
+
         candidates, weights = tree.calc_subtree_candidates(
             pwr=weight_pwr, what=weight_what
         )
@@ -1909,7 +1915,10 @@ class ContractionTree:
 
                 # get a subtree to possibly reconfigure
                 sub_leaves, sub_branches = tree.get_subtree(
-                    sub_root, size=subtree_size, search=subtree_search
+                    sub_root,
+                    size=subtree_size,
+                    search=subtree_search,
+                    seed=subtree_rng,
                 )
 
                 sub_leaves = frozenset(sub_leaves)
